@@ -366,14 +366,14 @@ theorem multi_entry_aligned (k : String) (g : Obs) (o : List Nat) :
 /-! ### the model satisfies `Holds.C15` (row clause) -/
 
 open Jinns.Holds in
-/-- `rowIs`, the decidable alignment clause of `Holds.C15`, is true of the model's batch at the
+/-- `c15RowIs`, the decidable alignment clause of `Holds.C15`, is true of the model's batch at the
     original row `idx[r]`. -/
 theorem rowIs_batchOf (g : Obs) (idx : List Nat) (r : Nat) (hr : r < idx.length)
     (hi : idx[r] < g.n) (hp : g.pin.length = g.n) (hv : g.val.length = g.n)
     (he : ∀ kx ∈ g.eq, kx.2.length = g.n) :
-    rowIs g.pin g.val (g.eq.map (·.2)) (batchOf g idx).pin (batchOf g idx).val
+    c15RowIs g.pin g.val (g.eq.map (·.2)) (batchOf g idx).pin (batchOf g idx).val
       ((batchOf g idx).eq.map (·.2)) r idx[r] = true := by
-  simp only [rowIs, Bool.and_eq_true, beq_iff_eq, List.all_eq_true]
+  simp only [c15RowIs, Bool.and_eq_true, beq_iff_eq, List.all_eq_true]
   refine ⟨⟨?_, ?_⟩, ?_⟩
   · simp [batchOf, gather, hr, List.getD_eq_getElem?_getD, hp, hi]
   · simp [batchOf, gather, hr, List.getD_eq_getElem?_getD, hv, hi]
@@ -385,6 +385,62 @@ theorem rowIs_batchOf (g : Obs) (idx : List Nat) (r : Nat) (hr : r < idx.length)
     have hlen := he (g.eq[j]'(by omega)) (List.getElem_mem _)
     simp [gather, hr, List.getD_eq_getElem?_getD, hlen, hi]
 
+open Jinns.Holds in
+theorem c15First_eq_none (l : List (Option String)) (h : ∀ x ∈ l, x = none) : c15First l = none := by
+  induction l with
+  | nil => rfl
+  | cons a r ih =>
+    have ha := h a List.mem_cons_self
+    subst ha
+    exact ih (fun x hx => h x (List.mem_cons_of_mem _ hx))
+
+open Jinns.Holds in
+/-- The per-batch clause of `Holds.C15` is true of any batch gathered with `b` valid row numbers. -/
+theorem c15ObsBatch_batchOf (g : Obs) (idx : List Nat) (hi : ∀ i ∈ idx, i < g.n)
+    (hp : g.pin.length = g.n) (hv : g.val.length = g.n) (he : ∀ kx ∈ g.eq, kx.2.length = g.n) :
+    c15ObsBatch idx.length g.pin g.val (g.eq.map (·.2)) (batchOf g idx).pin (batchOf g idx).val
+      ((batchOf g idx).eq.map (·.2))
+      (g.eq.map (·.1) == (batchOf g idx).eq.map (·.1)) = none := by
+  unfold c15ObsBatch
+  have hk : (g.eq.map (·.1) == (batchOf g idx).eq.map (·.1)) = true := by
+    simp [batchOf]
+  have hl : ((g.eq.map (·.2)).length != ((batchOf g idx).eq.map (·.2)).length) = false := by
+    simp [batchOf]
+  rw [hk, hl]
+  simp only [Bool.not_true, Bool.or_false, Bool.false_eq_true, ↓reduceIte]
+  have hs : ((batchOf g idx).pin.length != idx.length || (batchOf g idx).val.length != idx.length ||
+      !(((batchOf g idx).eq.map (·.2)).all fun t => t.length == idx.length)) = false := by
+    simp [batchOf, gather]
+  rw [hs]
+  simp only [Bool.false_eq_true, ↓reduceIte]
+  apply c15First_eq_none
+  intro x hx
+  obtain ⟨r, hr, rfl⟩ := List.mem_map.1 hx
+  have hr' : r < idx.length := List.mem_range.1 hr
+  have hany : ((List.range g.pin.length).any
+      (c15RowIs g.pin g.val (g.eq.map (·.2)) (batchOf g idx).pin (batchOf g idx).val
+        ((batchOf g idx).eq.map (·.2)) r)) = true := by
+    rw [List.any_eq_true]
+    refine ⟨idx[r], ?_, rowIs_batchOf g idx r hr' (hi _ (List.getElem_mem _)) hp hv he⟩
+    rw [List.mem_range, hp]; exact hi _ (List.getElem_mem _)
+  rw [if_pos hany]
+
+open Jinns.Holds in
+/-- **`Holds.C15` is true of the whole trace of the observation-loader model**, for every table,
+    every batch size `b ≤ n`, every history and every oracle sequence honouring the PRNG contract. -/
+theorem obs_history_holds {a : ObsArgs} {g : Obs} (h : mkObs a = .ok g) (hb : a.b ≤ g.n)
+    (os : List (List Nat)) (hos : ∀ o ∈ os, o.Perm (List.range g.n)) :
+    holdsC15Obs a.b g.pin g.val g.eq ((obsRun g os).2.map fun bt => (bt.pin, bt.val, bt.eq)) = none := by
+  obtain ⟨-, -, -, -, hp, hv, he, -⟩ := mkObs_ok h
+  unfold holdsC15Obs
+  apply c15First_eq_none
+  intro x hx
+  simp only [List.map_map, List.mem_map, Function.comp] at hx
+  obtain ⟨bt, hbt, rfl⟩ := hx
+  obtain ⟨idx, hlen, hidx, rfl⟩ := obs_history h hb os hos bt hbt
+  rw [← hlen]
+  exact c15ObsBatch_batchOf g idx hidx hp hv he
+
 /-! ### non-vacuity -/
 
 example : (mkObs { b := 2, pin := .d1 [1, 2, 3], val := .d2 [[10], [20], [30]] 1,
@@ -392,6 +448,10 @@ example : (mkObs { b := 2, pin := .d1 [1, 2, 3], val := .d2 [[10], [20], [30]] 1
       (fun g => (batchOf g [2, 0]).pin) = some [[3], [1]] := by decide
 example : (mkObs { b := 2, pin := .d1 [1, 2, 3], val := .d1 [1, 2], eq := [] }).toOption.isNone := by decide
 example : (mkObs { b := 2, pin := .hi 3 3, val := .d1 [1, 2, 3], eq := [] }).toOption.isNone := by decide
+example : paramStore 2 "uniform" { name := "nu", range := some (0, 1), user := some (.d1 [5, 7]) } []
+    = .ok [[5], [7]] := by simp [paramStore]
+example : ∃ s, paramStore 2 "grid" { name := "nu", range := some (0, 1), user := none } [] = .ok s :=
+  ⟨(gridStore 0 1 2).map fun x => [x], by simp [paramStore]⟩
 example : (mkNets 1 [{ name := "u", pin := some (.d1 [1]), val := some (.d1 [2]), eq := [] },
                       { name := "v", pin := none, val := none, eq := [] }]).toOption.map
       (fun gs => gs.map fun kg => (kg.1, kg.2.isSome)) = some [("u", true), ("v", false)] := by decide
